@@ -602,6 +602,7 @@ unit({
         {'file': 'src/Archive/ArchiveFile.h', 'qual': 'GetCount', 'inclass': 'ArchiveFile', 'cls': 'ArchiveFile', 'cname': 'ArchiveFile_GetCount'},
         _af('GetIndex'), _af('Contains'), _af('VerifyIndexInBounds'),
         _af('VerifySortedContainerHasNoDuplicateNames', static=True),
+        _af('ComparePathFilenames', static=True, calls={'GetFilename': N('XFile_GetFilename', recv='none'), 'IsEqualCaseInsensitive': N('StringUtility_IsEqualCaseInsensitive_U', recv='none')}),
     ],
 })
 
